@@ -366,8 +366,10 @@ namespace AIToolbox::POMDP {
                 aNode.children.emplace(std::piecewise_construct,
                                        std::forward_as_tuple(o),
                                        std::forward_as_tuple(s1));
-                // This stops automatically if we go out of depth
-                futureRew = rollout(model_, s1, maxDepth_ - depth + 1, rand_);
+                // We have already used depth + 1 of the maxDepth_ steps; as when
+                // descending, we stop at the horizon and at terminal states.
+                if ( depth + 1 < maxDepth_ && !model_.isTerminal(s1) )
+                    futureRew = rollout(model_, s1, maxDepth_ - depth - 1, rand_);
             }
             else {
                 ot->second.belief.push_back(s1);
